@@ -189,6 +189,27 @@ def templates(tier, seed):
                 {'mnemonic': 'lx', 'text': text, 'uses': [{'set': 'regs', 'id': text.split()[1].rstrip(',')}, u]},
                 expect=('ok',) if rng is None else ('ok', 'rejected'))
 
+    # index operands whose code is computed from the statement: a signed bit-index and enumerations
+    idx = {'nb': {'type': 'numeric_bytecode', 'bytecode': {'size': 3, 'min': Sym('imin', -4, 0), 'max': Sym('imax', 0, 7)}},
+           'rr': {'type': 'register', 'register': 'rb', 'bytecode': code('i_rb', 3)}}
+    idx2 = {'ne': {'type': 'numeric_enumeration', 'bytecode': {'size': 2, 'value_dict': {1: Sym('n1', 0, 3), 2: Sym('n2', 0, 3), 4: Sym('n4', 0, 3)}}}}
+    osets = {'idx': {'operand_values': {
+        'ix_i': {'type': 'indexed_register', 'register': 'ix', 'bytecode': code('c_ix', 3), 'index_operands': idx},
+        'sp_i': {'type': 'indirect_indexed_register', 'register': 'sp', 'bytecode': code('c_sp', 3), 'index_operands': idx},
+        'ix_e': {'type': 'indirect_indexed_register', 'register': 'ix', 'bytecode': code('c_ixe', 2), 'index_operands': idx2}}},
+        'regs': regs_set()}
+    ins = {'lx': {'bytecode': code('op', 4), 'operands': {'count': 2, 'operand_sets': {'list': ['regs', 'idx']}}}}
+    T7c = [('lx ra, ix + v1', 'ix_i', 'nb', V('v1'), (-6, 9)), ('lx rb, [sp + v1]', 'sp_i', 'nb', V('v1'), (-6, 9)),
+           ('lx rb, [sp + rb]', 'sp_i', 'rr', None, None),
+           ('lx ra, [ix + v1]', 'ix_e', 'ne', V('v1'), (0, 5))]
+    for i, (text, oid, iid, ival, rng) in enumerate(T7c):
+        u = {'set': 'idx', 'id': oid, 'index_id': iid}
+        if ival is not None:
+            u['index_val'] = ival
+        add(f't7c:{i}:{text}', isa(operand_sets=osets, instructions=ins, consts={'v1': rng} if rng else {}),
+            {'mnemonic': 'lx', 'text': text, 'uses': [{'set': 'regs', 'id': text.split()[1].rstrip(',')}, u]},
+            expect=('ok',) if rng is None else ('ok', 'rejected'))
+
     # ---- T8: specific operands, empty operand, variants -----------------------------------------------------------
     ins = {'push': {'bytecode': code('op0', 8), 'operands': {'count': 1, 'specific_operands': {
         'acc': {'list': {'r': {'type': 'register', 'register': 'ra', 'bytecode': code('c_a', 4)}}},
@@ -274,8 +295,15 @@ def _rand_operand(rnd, kind, tag, k):
         idx = {'ir': {'type': 'register', 'register': 'ra', 'bytecode': code(f'{tag}_ir', 2)},
                'off': {'type': 'numeric', 'bytecode': code(f'{tag}_in', 2), 'argument': ia}}
         od = {'type': kind, 'register': r, 'bytecode': bc(), 'index_operands': idx}
-        if rnd.random() < 0.3:
+        q = rnd.random()
+        if q < 0.25:
             text, use, cs = f'{r} + ra', {'index_id': 'ir'}, {}
+        elif q < 0.5:
+            # the index is a signed bit-index coded into the operand code itself
+            del idx['off']
+            # (all index operands of one operand share one code size)
+            idx['nb'] = {'type': 'numeric_bytecode', 'bytecode': {'size': 2, 'min': Sym(f'{tag}_imin', -2, 0), 'max': Sym(f'{tag}_imax', 0, 3)}}
+            text, use, cs = f'{r} + {v}', {'index_id': 'nb', 'index_val': V(v)}, {v: (-4, 5)}
         else:
             text, use, cs = f'{r}+{v}', {'index_id': 'off', 'index_val': V(v)}, {v: vrange(isz)}
         if kind == 'indirect_indexed_register':
